@@ -19,12 +19,13 @@ import contextlib
 import io
 import itertools
 import json
+import time
 import warnings
 from fractions import Fraction
 
 import numpy as np
 
-from common import CORPUS, err_kind
+from common import CORPUS, err_kind, frac_token
 
 TOL = 1e-9
 WSET = (1, 2, 3, 5, 17, 1000)
@@ -65,7 +66,36 @@ def _state():
     import importlib.util  # noqa: F401
     from infretis.classes.repex import REPEX_state
     st = REPEX_state({"current": {"size": 3}, "runner": {"workers": 1}, "simulation": {"seed": 0}}, minus=True)
+    # a genuine numpy generator: repex_tie (used by _cache_coherence) replaces repex.default_rng by a scripted
+    # generator for the rest of the process, and run(ctx) may be called several times in one process
+    st.rgen = np.random.default_rng(0)
     return st
+
+
+class _Hang(Exception):
+    pass
+
+
+def _bounded(fn, secs=90):
+    """run fn() with a wall-clock bound that nests inside the framework's own SIGALRM budget; a call that
+    does not return is reported as a failing input (`err:hang`) instead of a time-out of the whole check"""
+    import signal
+    import threading
+    if threading.current_thread() is not threading.main_thread():
+        return fn()
+
+    def on_alarm(signum, frame):
+        raise _Hang()
+    t0 = time.time()
+    prev = signal.signal(signal.SIGALRM, on_alarm)
+    remaining = signal.alarm(secs)
+    try:
+        return fn()
+    finally:
+        signal.alarm(0)
+        signal.signal(signal.SIGALRM, prev)
+        if remaining:
+            signal.alarm(max(1, remaining - int(time.time() - t0)))
 
 
 def _tap(st):
@@ -120,7 +150,7 @@ class Code:
         self.log = _tap(self.st)
 
     def inf(self, off, W, locks):
-        """-> (kind, P or None, branches, mc_dims)"""
+        """-> (kind, P or None, branches, mc_dims, purity note or None)"""
         st = self.st
         st.n = len(W)
         st._offset = off
@@ -128,29 +158,55 @@ class Code:
         rc0 = st._random_count
         buf = io.StringIO()
         P = None
+        Wa = np.array(W, dtype=float)
+        la = np.array(locks, dtype=float)
+        W0, l0 = Wa.copy(), la.copy()
         try:
             with contextlib.redirect_stdout(buf):
-                P = st.inf_retis(np.array(W, dtype=float), np.array(locks, dtype=float))
+                P = _bounded(lambda: st.inf_retis(Wa, la))
             kind = "ok"
+        except _Hang:
+            kind = "err:hang"
         except Exception as e:  # noqa: BLE001
             kind = err_kind(e)
+        note = None
+        try:
+            if Wa.shape != W0.shape or la.shape != l0.shape or not np.array_equal(Wa, W0) or not np.array_equal(la, l0):
+                note = "inf_retis modified the weight matrix / lock vector it was given"
+            elif isinstance(P, np.ndarray) and (np.shares_memory(P, Wa) or np.shares_memory(P, la)):
+                note = "the matrix returned by inf_retis shares memory with its input"
+        except Exception as e:  # noqa: BLE001
+            note = f"inputs not comparable after the call ({type(e).__name__})"
         nrand = st._random_count - rc0
         dims = []
         for ln in buf.getvalue().splitlines():
             if ln.startswith("random #") and "dims = " in ln:
-                dims.append(int(ln.split("dims = ")[1]))
-        br = code_branches(self.log, kind != "ok")
+                try:
+                    dims.append(int(ln.split("dims = ")[1]))
+                except ValueError:
+                    pass
+        try:
+            br = code_branches(self.log, kind != "ok")
+        except Exception:  # noqa: BLE001
+            br = None
         if nrand and kind == "ok":
             kind = "mc"
-        return kind, P, br, (nrand, dims)
+        return kind, P, br, (nrand, dims), note
 
 
 # --------------------------------------------------------------------------- tokens
+def _tokw(x):
+    """exact rational token of one weight (int, float or Fraction)"""
+    if isinstance(x, (int, np.integer)):
+        return str(int(x))
+    return frac_token(x)
+
+
 def tok_mat(M):
     parts = [str(len(M))]
     for r in M:
         parts.append(str(len(r)))
-        parts.extend(str(x) for x in r)
+        parts.extend(_tokw(x) for x in r)
     return " ".join(parts)
 
 
@@ -235,6 +291,8 @@ def oracle(W, locks):
     n = len(W)
     idle = [i for i in range(n) if not locks[i]]
     M = [[W[i][j] for j in idle] for i in idle]
+    if any(not isinstance(x, (int, np.integer)) for r in M for x in r):
+        M = [[Fraction(x) for x in r] for r in M]       # float weights: exact rationals
     perm, mn = minors_perm(M)
     if perm == 0:
         return None
@@ -378,9 +436,12 @@ def predicate(code, case, res=None, want=None, full=True):
         return fails
     if kind != "ok":
         return [("C02:exception-in-family", f"inf_retis raised {kind} on a reachable weight matrix")]
-    if P.shape != (n, n):
-        return [("C02:shape", f"result has shape {P.shape}, expected {(n, n)}")]
-    Pf = np.asarray(P, dtype=float)
+    try:
+        Pf = np.asarray(P, dtype=float)
+    except Exception as e:  # noqa: BLE001
+        return [("C02:shape", f"result of type {type(P).__name__} is not a numeric matrix ({type(e).__name__})")]
+    if Pf.shape != (n, n):
+        return [("C02:shape", f"result has shape {Pf.shape}, expected {(n, n)}")]
     Wf = np.array([[float(x) for x in r] for r in want])
     if not np.all(np.isfinite(Pf)):
         return [("C02:non-finite", "result contains nan/inf")]
@@ -408,7 +469,9 @@ def predicate(code, case, res=None, want=None, full=True):
             W2 = [list(row) for row in W]
             W2[r] = [x * fac for x in W2[r]]
             k2, P2 = code.inf(off, W2, locks)[:2]
-            if k2 == "ok":
+            if k2 == "ok" and np.shape(P2) != Pf.shape:
+                fails.append(("C02:shape", f"row {r} multiplied by {fac}: result has shape {np.shape(P2)}"))
+            elif k2 == "ok":
                 d2 = np.abs(np.asarray(P2, dtype=float) - Pf).max()
                 STATS["max_rescale_diff"] = max(STATS["max_rescale_diff"], float(d2))
                 if d2 > TOL:
@@ -459,6 +522,8 @@ def evaluate_family(ctx, code, cases, label):
                     budget[("perm", sz)] -= 1
                 idle = [i for i in range(len(c["W"])) if not c["locks"][i]]
                 M = [[c["W"][i][j] for j in idle] for i in idle]
+                if any(not isinstance(x, (int, np.integer)) for r in M for x in r):
+                    M = [[Fraction(x) for x in r] for r in M]
                 a_, b_ = rng.randrange(sz), rng.randrange(sz)
                 mnr = [[M[x][y] for y in range(sz) if y != b_] for x in range(sz) if x != a_]
                 perm_req.append((M, mnr, a_, b_))
@@ -473,13 +538,31 @@ def evaluate_family(ctx, code, cases, label):
         for q_, (M, mnr, a_, b_) in enumerate(perm_req):
             pm, mn = minors_perm(M)
             ctx.hit("spec=lean-permC-vs-python-perm", 2)
-            if pout[2 * q_] != str(pm) or pout[2 * q_ + 1] != str(mn[a_][b_]):
+            if pout[2 * q_] != _tokw(pm) or pout[2 * q_ + 1] != _tokw(mn[a_][b_]):
                 ctx.disagree({"fn": "permC(lean) vs python permanent", "M": M, "minor": [a_, b_]},
-                             [str(pm), str(mn[a_][b_])], pout[2 * q_: 2 * q_ + 2])
+                             [_tokw(pm), _tokw(mn[a_][b_])], pout[2 * q_: 2 * q_ + 2])
+    fresh_every = 61 if ctx.quick else 17
     for k, c in enumerate(cases):
-        kind, P, cbr, (nrand, dims) = results[k]
+        kind, P, cbr, (nrand, dims), note = results[k]
         want = wants[k]
         rep = {"kind": c.get("kind", label), "off": c["off"], "W": c["W"], "locks": c["locks"]}
+        # --- input purity (the state matrix handed to inf_retis is the sampler's live state)
+        if note:
+            ctx.fail("C02:input-modified", note, rep)
+        # --- object state: the long-lived object's answer equals a fresh object's answer, bit for bit
+        if k % fresh_every == 3 and kind == "ok":
+            ctx.hit("object_state:long-lived-vs-fresh")
+            fr = Code().inf(c["off"], c["W"], c["locks"])
+            same = fr[0] == "ok" and np.shape(fr[1]) == np.shape(P)
+            if same:
+                try:
+                    same = bool(np.array_equal(np.asarray(fr[1], dtype=float), np.asarray(P, dtype=float)))
+                except Exception:  # noqa: BLE001
+                    same = False
+            if not same:
+                ctx.fail("C02:depends-on-call-history",
+                         f"a REPEX_state used for {k} earlier matrices returns a different matrix than a fresh "
+                         f"one on the same input (fresh: {fr[0]})", rep)
         if "rescale" in c:
             rep["rescale"] = list(c["rescale"])
         if c.get("cross"):
@@ -496,28 +579,36 @@ def evaluate_family(ctx, code, cases, label):
                     ctx.disagree({"fn": "spec(lean probMatrix) vs python oracle", **rep}, spec_line(want)[:300], spec[k][:300])
             else:
                 ctx.hit("spec=python-only")
-            # --- model vs code
-            mt = body.split()
-            mkind = mt[0] if mt[0] in ("ok", "mc") else body.strip()
-            if mkind != kind:
-                ctx.disagree({"fn": "inf_retis kind", **rep}, kind, body[:200])
-            elif kind == "ok":
-                Mm, _ = parse_mat_f(mt, 1)
-                dm = np.abs(np.asarray(P, dtype=float) - np.array(Mm)).max() if np.shape(P) == np.shape(Mm) else 1.0
-                STATS["max_abs_err_vs_model"] = max(STATS["max_abs_err_vs_model"], float(dm))
-                if not dm <= TOL:
-                    ctx.disagree({"fn": "inf_retis value", **rep}, f"max|code-model|={dm:.3e}", body[:200])
-            elif kind == "mc":
-                msz = [int(x) for x in mt[2:]]
-                if sorted(msz) != sorted(dims) or nrand != len(msz):
-                    ctx.disagree({"fn": "inf_retis monte-carlo decision", **rep}, f"random_count+={nrand} dims={dims}", body)
-            if cbr is not None and kind in ("ok", "mc") and cbr != mbr:
-                ctx.disagree({"fn": "inf_retis branches", **rep}, cbr, mbr)
+            # --- model vs code (never lets an unexpected output type stop the run: the predicate below judges it)
+            try:
+                mt = body.split()
+                mkind = mt[0] if mt[0] in ("ok", "mc") else body.strip()
+                if mkind != kind:
+                    ctx.disagree({"fn": "inf_retis kind", **rep}, kind, body[:200])
+                elif kind == "ok":
+                    Mm, _ = parse_mat_f(mt, 1)
+                    dm = np.abs(np.asarray(P, dtype=float) - np.array(Mm)).max() if np.shape(P) == np.shape(Mm) else 1.0
+                    STATS["max_abs_err_vs_model"] = max(STATS["max_abs_err_vs_model"], float(dm))
+                    if not dm <= TOL:
+                        ctx.disagree({"fn": "inf_retis value", **rep}, f"max|code-model|={dm:.3e}", body[:200])
+                elif kind == "mc":
+                    msz = [int(x) for x in mt[2:]]
+                    if sorted(msz) != sorted(dims) or nrand != len(msz):
+                        ctx.disagree({"fn": "inf_retis monte-carlo decision", **rep}, f"random_count+={nrand} dims={dims}", body)
+                if cbr is not None and kind in ("ok", "mc") and cbr != mbr:
+                    ctx.disagree({"fn": "inf_retis branches", **rep}, cbr, mbr)
+            except Exception as e:  # noqa: BLE001
+                ctx.disagree({"fn": "inf_retis output not comparable with the model", **rep},
+                             f"{type(e).__name__}: {e}", body[:200])
         else:
             branch = "+".join(sorted(set(cbr))) if cbr else "none"
         ctx.count(1, branch=branch)
         ctx.distinct(case_key(c))
-        for sig, what in predicate(code, c, results[k], want):
+        try:
+            verdict = predicate(code, c, results[k], want)
+        except Exception as e:  # noqa: BLE001  (an output the predicate cannot even read is a failing input)
+            verdict = [("C02:unreadable-output", f"the result of inf_retis cannot be judged: {type(e).__name__}: {e}")]
+        for sig, what in verdict:
             ctx.fail(sig, what, rep)
         if k % 4999 == 7:
             ctx.sample({"fn": "inf_retis", **rep, "branches": branch, "code": kind,
@@ -691,6 +782,315 @@ def gen_weighted(ctx, rng):
         W = [[1] + [0] * (m + 1)] + [[0] + rows[i] + [0] for i in [0, 1] + order] + [[0] * (m + 2)]
         cases.append({"kind": "weighted-rowconst-large-block", "off": 1, "W": W, "locks": [0] * (m + 1) + [1]})
     return cases, mc
+
+
+def gen_boundary(ctx, rng):
+    """exact boundaries and falsy-but-valid values (all in-family, judged by the full predicate):
+    block sizes around every switch of code path (1|2: single vs quick/permanent; 12|13: exact vs Monte-Carlo,
+    for the block AND for the idle matrix around it), the equal-weight test with weights equal up to the
+    last bit, zero vs tiny positive weights, exactly one idle ensemble (each slot, incl. the [0-] slot 0)"""
+    cases, mc = [], []
+    tiny = [5e-324, 2.0 ** -1000, 1e-300]
+    up = float(np.nextafter(3.0, 4.0))          # 3 + 1 ulp
+    dn = float(np.nextafter(3.0, 2.0))
+
+    def fam(kind, off, seq, wf, locks=None, wminus=1, **kw):
+        W = build(off, seq, wf, wminus=wminus)
+        lk = locks if locks is not None else [0] * (len(W) - 1) + [1]
+        c = {"kind": "boundary-" + kind, "off": off, "W": W, "locks": lk}
+        c.update(kw)
+        return c
+    # --- block-size thresholds. `pre` single blocks in front, then one closed block of size b
+    def blocked(pre, b):
+        return tuple(range(1, pre + 1)) + (pre + b,) * b
+    free_tbl = [[rng.choice(WMILD) for _ in range(20)] for _ in range(20)]
+    free_tbl[0][0], free_tbl[0][1] = 2, 3        # make sure row 0 is not row-constant
+    sizes_exact = (2, 3, 11, 12) if ctx.quick else (2, 3, 10, 11, 12)
+    for b in sizes_exact:
+        for pre in (0, 2):
+            for off in (1, 0):
+                if b >= 11 and (off == 0 or (ctx.quick and pre == 0 and b == 11)):
+                    continue
+                seq = blocked(pre, b)
+                cases.append(fam(f"free-block-{b}-idle-{off + pre + b}", off, seq,
+                                 lambda k, c, pre=pre: free_tbl[max(0, k - pre)][c % 20] if k >= pre else 5))
+    for b, pre in ((12, 0), (13, 0), (14, 0), (12, 3), (13, 2)):
+        # row-constant blocks never go to Monte-Carlo, whatever their size
+        rw = [rng.choice(WSET) for _ in range(pre + b)]
+        cases.append(fam(f"rowconst-block-{b}-idle-{1 + pre + b}", 1, blocked(pre, b), lambda k, c, rw=rw: rw[k]))
+    for b, pre in ((13, 0),) if ctx.quick else ((13, 0), (13, 2), (14, 0)):
+        mc.append(fam(f"free-block-{b}-montecarlo", 1, blocked(pre, b),
+                      lambda k, c, pre=pre: free_tbl[max(0, k - pre)][c % 20] if k >= pre else 5))
+    # the 12-limit is a limit on the BLOCK: a free block of 3 and of 12 inside an idle matrix of 14 / 16
+    cases.append(fam("free-block-3-idle-15", 1, tuple(range(1, 12)) + (14,) * 3,
+                     lambda k, c: free_tbl[k][c % 20] if k >= 11 else 2))
+    # --- equal-weight test: exactly equal vs equal up to the last bit
+    for m in (2, 3, 4):
+        seq = (m,) * m
+        for how in ("exact", "up", "down", "first-up"):
+            def wf(k, c, how=how, m=m):
+                if how == "exact" or k != m - 1:
+                    return 3.0
+                if how == "first-up":
+                    return up if c == 0 else 3.0
+                return (up if how == "up" else dn) if c == m - 1 else 3.0
+            cases.append(fam(f"equal-test-{how}", 1, seq, wf, wminus=3.0))
+            cases.append(fam(f"equal-test-{how}", 0, seq, wf))
+    # staircase (not one block): a last-bit difference inside one row of an otherwise row-constant state
+    cases.append(fam("equal-test-stair-up", 1, (1, 3, 3), lambda k, c: up if (k, c) == (2, 1) else 3.0))
+    # --- zero vs tiny positive: a tiny weight is a weight (row-constant tiny rows; one tiny entry that extends a row)
+    for t in tiny:
+        for seq in ((2, 2), (1, 3, 3), (3, 3, 3)):
+            m = len(seq)
+            cases.append(fam("tiny-row", 1, seq, lambda k, c, t=t: t if k == 0 else 1, wminus=t))
+            cases.append(fam("tiny-row", 0, seq, lambda k, c, t=t: t if k == m - 1 else 2))
+            cases.append(fam("tiny-all", 1, seq, lambda k, c, t=t: t, wminus=1))
+    t40 = 2.0 ** -40
+    cases.append(fam("tiny-entry-extends-row", 1, (2, 3, 3), lambda k, c: t40 if (k, c) == (0, 1) else 1))
+    cases.append(fam("tiny-entry-extends-row", 1, (1, 2, 3), lambda k, c: t40 if (k, c) == (2, 2) else 2))
+    cases.append(fam("zero-instead-of-tiny", 1, (1, 3, 3), lambda k, c: 1))
+    # --- exactly one idle ensemble: every slot in turn (slot 0 = the [0-] ensemble), both offsets
+    for off in (1, 0):
+        for seq in ((1,), (2, 2), (1, 2, 3), (3, 3, 3)):
+            nsl = off + len(seq)
+            for s in range(nsl):
+                lk = [0 if x == s else 1 for x in range(nsl)] + [1]
+                cases.append(fam(f"one-idle-slot-{s}", off, seq, lambda k, c: 1 + ((k + c) % 3), locks=lk, wminus=7))
+    # two idle: slot 0 and one other
+    for s in (1, 2, 3):
+        cases.append(fam("idle-0-and-one", 1, (3, 3, 3), lambda k, c: 2, locks=[0 if x in (0, s) else 1 for x in range(4)] + [1]))
+    for c in cases:
+        idle = [x for x in range(len(c["locks"])) if not c["locks"][x]]
+        if len(c["W"]) <= 8 and "rescale" not in c:
+            c["rescale"] = (idle[len(idle) // 2], 1000)
+    return cases, mc
+
+
+# --------------------------------------------------------------------------- (a)/(b) long-lived objects
+class _P:
+    """stand-in for a Path as far as REPEX_state needs it here"""
+
+    def __init__(self, pn, weights):
+        self.path_number = pn
+        self.weights = None if weights is None else tuple(weights)
+
+    def __deepcopy__(self, memo):
+        return _P(self.path_number, self.weights)
+
+
+def _full_state(size, workers, seed):
+    """a complete REPEX_state (size ensembles incl. [0-], ghost) as setup_internal builds it, with a genuine
+    numpy generator"""
+    import importlib.util  # noqa: F401
+    from infretis.classes.repex import REPEX_state
+    cfg = {"current": {"size": size, "cstep": 0, "active": list(range(size)), "locked": [], "traj_num": size, "frac": {}},
+           "runner": {"workers": workers},
+           "simulation": {"seed": seed, "steps": 10 ** 6, "interfaces": [float(i) for i in range(size)],
+                          "shooting_moves": ["sh"] * size, "tis_set": {"lambda_minus_one": False, "maxlength": 100},
+                          "load_dir": "load", "ensemble_engines": [["engine"]] * size},
+           "output": {"screen": 0, "data_dir": "./", "data_file": "./infretis_data.txt", "delete_old": False}}
+    st = REPEX_state(cfg, minus=True)
+    st.rgen = np.random.default_rng(seed)
+    st.initiate_ensembles()
+    st.toinitiate = -1
+    st.cworker = 0
+    return st
+
+
+def _valid_for(rng, size, e, wf):
+    """weights of a new path accepted in plus ensemble e (0-based among the size-1 plus ensembles): positive on
+    plus columns 0..last, last >= e; as `add_traj` wants it (plus columns + ghost column)"""
+    nplus = size - 1
+    last = rng.randint(e, nplus - 1)
+    if wf == "01":
+        w = [1] * (last + 1)
+    elif wf == "row":
+        w = [rng.choice(WSET)] * (last + 1)
+    else:
+        w = [rng.choice(WMILD) for _ in range(last + 1)]
+    return tuple(w + [0] * (nplus - 1 - last) + [0])
+
+
+def object_history(label, nops, quick=True):
+    """ONE long-lived REPEX_state per entry of `sizes` (two or three alive at once, operations interleaved) driven
+    through add_traj / swap+lock / pick() / pick_traj_ens / pick_lock (re-issue branch) / sort_trajstate, with
+    `prob` read after every mutator.  After every step, for the object just touched AND for the others:
+      cached `prob` == inf_retis of a FRESH object on copies of (|state|, locks) == exact permanent ratios;
+      reading `prob` leaves state and locks untouched.
+    -> (failures [(signature, what, replay)], model lines [(label, step, W, locks, P)], steps done)"""
+    import random
+    rng = random.Random(label)
+    fails, recs = [], []
+    info = {"ops": {}, "abandoned": None}
+    sizes = [rng.choice((3, 4, 5)), rng.choice((4, 5, 6, 7))] + ([rng.choice((2, 3))] if rng.random() < 0.5 else [])
+    wfs = [rng.choice(("01", "row", "free")) for _ in sizes]
+    sts = []
+    pn = [0]
+
+    def newpath(weights):
+        pn[0] += 1
+        return _P(pn[0], weights)
+
+    def check(tag, step):
+        for which, st in enumerate(sts):
+            if st._locks[:-1].all():
+                continue                       # everything busy: the sampler does not ask for P then
+            rep = {"kind": "objhist", "label": label, "step": step, "object": which, "after": tag, "off": 1,
+                   "W": [[float(x) for x in r] for r in np.abs(st.state)], "locks": [int(x) for x in st._locks]}
+            S0, L0 = st.state.copy(), st._locks.copy()
+            try:
+                P = _bounded(lambda st=st: st.prob, 60)
+                Pf = np.asarray(P, dtype=float)
+            except Exception as e:  # noqa: BLE001
+                fails.append(("C02:exception-in-family", f"reading prob after {tag} raised {err_kind(e)} "
+                              f"(object {which} of {len(sts)}, step {step})", rep))
+                return False
+            if not (np.array_equal(st.state, S0) and np.array_equal(st._locks, L0)):
+                fails.append(("C02:input-modified", f"reading prob after {tag} changed state/locks of the sampler", rep))
+                return False
+            from infretis.classes.repex import REPEX_state
+            fr = REPEX_state({"current": {"size": len(S0) - 1}, "runner": {"workers": 1}, "simulation": {"seed": 0}}, minus=True)
+            try:
+                F = np.asarray(fr.inf_retis(np.abs(S0.copy()), L0.copy()), dtype=float)
+            except Exception as e:  # noqa: BLE001
+                fails.append(("C02:exception-in-family", f"inf_retis on the state after {tag} raised {err_kind(e)}", rep))
+                return False
+            if Pf.shape != F.shape or not np.allclose(Pf, F, rtol=0, atol=1e-12):
+                fails.append(("C02:cached-prob-stale",
+                              f"after {tag} (step {step}, object {which} of {len(sts)} alive) `prob` differs from "
+                              f"inf_retis of a fresh object on the current state/locks "
+                              f"(max diff {np.abs(Pf - F).max() if Pf.shape == F.shape else 'shape'})", rep))
+                return False
+            want = oracle(rep["W"], rep["locks"])
+            if want is not None:
+                Wf = np.array([[float(x) for x in r] for r in want])
+                if np.abs(F - Wf).max() > TOL:
+                    fails.append(("C02:prob-ne-permanent-ratio", f"state after {tag}: inf_retis differs from the "
+                                  f"permanent ratios by {np.abs(F - Wf).max():.3e}", rep))
+                    return False
+            if which == step % len(sts):
+                recs.append((step, rep["W"], rep["locks"], F))
+        return True
+
+    try:
+        for size, wf in zip(sizes, wfs):
+            st = _full_state(size, max(1, size - 2), seed=len(sts))
+            sts.append(st)
+            for e in range(size - 1):
+                st.add_traj(e, newpath(None), _valid_for(rng, size, e, wf), count=False)
+            st.add_traj(-1, newpath(None), (float(rng.choice(WSET)),), count=False)
+            if not check("initial add_traj", -1):
+                return fails, recs, info
+        for step in range(nops):
+            k = step % len(sts) if rng.random() < 0.7 else rng.randrange(len(sts))
+            st, size, wf = sts[k], sizes[k], wfs[k]
+            n = size + 1
+            idle = [e for e in range(n - 1) if not st._locks[e]]
+            busy = [e for e in range(n - 1) if st._locks[e]]
+            ops = ["read"]
+            if len(idle) >= 2:
+                ops += ["pickdirect", "pickdirect", "reissue", "colpick", "same"]
+            if len(idle) >= 3:
+                ops += ["pickreal", "pickreal"]
+            if busy:
+                ops += ["finish", "finish", "finish"]
+            op = rng.choice(ops)
+            info["ops"][op] = info["ops"].get(op, 0) + 1
+            if op == "read":
+                tag = "a second read"
+            elif op in ("pickdirect", "same"):
+                P = np.asarray(st.prob, dtype=float)
+                opts = [(t, e) for t in idle for e in idle if P[t, e] > 1e-12 and (op != "same" or t == e)]
+                if not opts:
+                    continue
+                t, e = rng.choice(opts)
+                st.swap(t, e)
+                st.lock(e)
+                tag = f"swap({t},{e}); lock({e})"
+            elif op == "colpick":
+                e = rng.choice(idle)
+                st.pick_traj_ens(e)
+                tag = f"pick_traj_ens({e})"
+            elif op == "pickreal":
+                st.pick()
+                tag = "pick()"
+            elif op == "reissue":
+                P = np.asarray(st.prob, dtype=float)
+                opts = [(t, e) for t in idle for e in idle if P[t, e] > 1e-12]
+                if not opts:
+                    continue
+                t, e = rng.choice(opts)
+                st.locked0 = [([e], [str(st._trajs[t].path_number)])]
+                st.pick_lock()
+                tag = f"pick_lock() re-issuing ensemble index {e} with the path of slot {t}"
+            else:
+                e = rng.choice(busy)
+                if e == 0:
+                    st.add_traj(-1, newpath(None), (float(rng.choice(WSET)),), count=False)
+                else:
+                    st.add_traj(e - 1, newpath(None), _valid_for(rng, size, e - 1, wf), count=False)
+                tag = f"add_traj(ensemble index {e})"
+                if not check(tag, step):
+                    return fails, recs, info
+                _bounded(st.sort_trajstate, 20)
+                tag += "; sort_trajstate()"
+            if not check(tag, step):
+                return fails, recs, info
+    except _Hang:
+        info["abandoned"] = "hang-in-mutator"   # sort_trajstate did not return: not this property's business
+    except Exception as e:  # noqa: BLE001
+        import traceback
+        names = {fr.name for fr in traceback.extract_tb(e.__traceback__)}
+        if names & {"inf_retis", "quick_prob", "permanent_prob", "find_blocks", "fast_glynn_perm", "random_prob", "prob"}:
+            fails.append(("C02:exception-in-family", f"computing the probability matrix inside a sampler operation "
+                          f"raised {err_kind(e)} (history {label}): " + traceback.format_exc(limit=-2)[-300:],
+                          {"kind": "objhist", "label": label, "step": -2}))
+        else:
+            info["abandoned"] = "mutator-raised-" + type(e).__name__    # other properties' business
+    return fails, recs, info
+
+
+def _object_state(ctx):
+    """(a) call history / several objects alive, (b) input purity — see object_history"""
+    nh = 6 if ctx.quick else 60
+    lines, meta = [], []
+    for h in range(nh):
+        label = f"C02-objhist:{ctx.seed}:{h}"
+        fails, recs, info = object_history(label, 70 if ctx.quick else 160)
+        ctx.count(len(recs), branch="object_history_step")
+        for op, cnt in info["ops"].items():
+            ctx.hit("object_history:op=" + op, cnt)
+        if info["abandoned"]:
+            ctx.hit("object_history:abandoned:" + info["abandoned"])
+            abandoned = ctx.extra.setdefault("object_histories_abandoned", [])
+            abandoned.append(label)
+            if len(abandoned) * 2 > nh:
+                ctx.disagree({"fn": "object histories", "labels": abandoned[:5]},
+                             "more than half of the operation histories could not be driven to the end",
+                             info["abandoned"])
+        for sig, what, rep in fails:
+            ctx.fail(sig, what, rep)
+        for (step, W, locks, F) in recs[:: (3 if ctx.quick else 1)]:
+            lines.append(f"infretis 1 {tok_list(locks)} {tok_mat(W)}")
+            meta.append((label, step, W, locks, F))
+    if ctx._driver_ok and lines:
+        out = ctx.driver(lines)
+        for (label, step, W, locks, F), mo in zip(meta, out):
+            body = mo.partition(" | ")[0]
+            mt = body.split()
+            ctx.hit("object_history:model-compared")
+            try:
+                if mt[0] != "ok":
+                    ctx.disagree({"fn": "inf_retis on a state of a long-lived object", "label": label, "step": step,
+                                  "W": W, "locks": locks}, "ok", body[:200])
+                    continue
+                Mm, _ = parse_mat_f(mt, 1)
+                if np.shape(Mm) != F.shape or np.abs(F - np.array(Mm)).max() > TOL:
+                    ctx.disagree({"fn": "inf_retis value on a state of a long-lived object", "label": label,
+                                  "step": step, "W": W, "locks": locks}, "values differ", body[:200])
+            except Exception as e:  # noqa: BLE001
+                ctx.disagree({"fn": "object history: model answer unreadable", "label": label, "step": step},
+                             f"{type(e).__name__}", body[:200])
 
 
 def sub_functions(ctx, code, rng):
@@ -902,7 +1302,7 @@ def malformed(ctx, code, rng):
         return
     out = ctx.driver([f"infretis {c['off']} {tok_list(c['locks'])} {tok_mat(c['W'])}" for c in cases])
     for c, r, mo in zip(cases, res, out):
-        kind, P, cbr, _ = r
+        kind, P, cbr = r[0], r[1], r[2]
         body, _, brs = mo.partition(" | ")
         mt = body.split()
         mkind = mt[0] if mt[0] in ("ok", "mc") else body.strip()
@@ -969,15 +1369,25 @@ def _run_core(ctx):
         wt, mc = gen_weighted(ctx, rng)
         evaluate_family(ctx, code, wt, "weighted")
         evaluate_family(ctx, code, mc, "monte-carlo-decision")
+        bd, bmc = gen_boundary(ctx, rng)
+        evaluate_family(ctx, code, bd, "boundary")
+        evaluate_family(ctx, code, bmc, "boundary-monte-carlo-decision")
+        ctx.extra["boundary_cases"] = sorted({c["kind"] for c in bd + bmc})
         t2 = ctx.elapsed()
-        sub_functions(ctx, code, rng)
+        try:
+            sub_functions(ctx, code, rng)
+        except Exception as e:  # noqa: BLE001  (never let a harness error hide the verdicts above)
+            ctx.disagree({"fn": "sub_functions section could not be completed"}, f"{type(e).__name__}: {e}", "")
         ill = predicate(code, ILL_CONDITIONED, full=False)
         ctx.extra["ill_conditioned_witness"] = {"fails_now": [list(f) for f in ill], "reported": REPORT_ILL_CONDITIONED}
         if ill and REPORT_ILL_CONDITIONED:
             ctx.fail("C02:glynn-cancellation-ill-conditioned",
                      "rounding in fast_glynn_perm: " + ill[0][1], {k: v for k, v in ILL_CONDITIONED.items()})
         t3 = ctx.elapsed()
-        malformed(ctx, code, rng)
+        try:
+            malformed(ctx, code, rng)
+        except Exception as e:  # noqa: BLE001
+            ctx.disagree({"fn": "malformed section could not be completed"}, f"{type(e).__name__}: {e}", "")
         t4 = ctx.elapsed()
     ctx.extra["exhaustive_part"] = (
         f"0/1 weights, offset 1 (with [0-]): every staircase with 1..{max_full} plus ensembles x every lock subset of the "
@@ -1013,7 +1423,7 @@ def _run_core(ctx):
 def replay(ctx, obj):
     """re-run one recorded failing input on the current implementation: 1 = still failing"""
     r = obj.get("replay", obj)
-    if "W" not in r and "arg" not in r:
+    if "W" not in r and "arg" not in r and r.get("kind") != "objhist":
         # a `no-failing-input-found` record (broken proof obligation / correspondence): nothing to re-run on the code
         print(json.dumps(obj, indent=1, default=str)[:4000])
         return 1
@@ -1021,6 +1431,13 @@ def replay(ctx, obj):
         warnings.simplefilter("ignore")
         code = Code()
         kind = r.get("kind", "")
+        if kind == "objhist":
+            fails, _recs, _info = object_history(r["label"], 160)
+            for sig, what, _rep in fails:
+                print(sig, "-", what)
+            if not fails:
+                print("the recorded operation history passes now")
+            return 1 if fails else 0
         if kind.startswith("sub:"):
             c = common_ctx_stub()
             _replay_sub(c, code, kind[4:], r["arg"])
@@ -1117,4 +1534,7 @@ def _cache_coherence(ctx):
 
 def run(ctx):
     _run_core(ctx)
+    with warnings.catch_warnings(), np.errstate(all="ignore"):
+        warnings.simplefilter("ignore")
+        _object_state(ctx)
     _cache_coherence(ctx)
